@@ -476,7 +476,7 @@ class ExcFlow:
         kt = norm.text(x.slice) if k[0] != "c" else repr(k[1])
         for f in facts:
             if f[0] == "in" and f[3] and f[1] == kt and f[2][0] == "e":
-                if f[2][1] == bt or _alias(f[2][1], bt):
+                if f[2][1] == bt or _alias(fn, f[2][1], bt):
                     return None
         return Site("KeyError", f"{norm.text(x)[:50]}", fn, x)
 
@@ -533,8 +533,12 @@ class ExcFlow:
         return out
 
 
-def _alias(a, b):
-    """http_headers_cnt is keyed exactly like http_headers (parseHttpHeader fills both in the same branches)."""
-    na, nb = a.replace("self.", ""), b.replace("self.", "")
-    pair = {na, nb}
-    return pair == {"http_headers", "http_headers_cnt"}
+def _alias(fn, a, b):
+    """The header-count table is keyed exactly like the header table (parseHttpHeader fills both in the same branches): the second and third
+    value unpacked from one parseHttpHeader(...) call of this function, whatever the targets are called."""
+    for st in walk_no_defs(fn.node):
+        if isinstance(st, ast.Assign) and isinstance(st.value, ast.Call) and (call_name(st.value) or "").split(".")[-1] == "parseHttpHeader" \
+                and isinstance(st.targets[0], ast.Tuple) and len(st.targets[0].elts) == 3:
+            if {a, b} == {norm.text(st.targets[0].elts[1]), norm.text(st.targets[0].elts[2])}:
+                return True
+    return False
